@@ -46,8 +46,11 @@ if rc:
     meta["status"] = "patch does not apply to current /repo HEAD: " + out[-400:]
     print(json.dumps(meta, indent=1)); sys.exit(3)
 
-def apply():   return sh(f"{mode} {patch}", WT)
-def unapply(): return sh(f"git checkout -- . && git reset -q", WT)
+def apply():
+    r = sh(f"{mode} {patch}", WT)
+    sh("git add -A", WT)   # staged, so that cleaning the demo files away keeps files the patch adds
+    return r
+def unapply(): return sh(f"git reset -q --hard && git clean -fdq", WT)
 
 # demo files
 demos = [f for f in glob.glob(os.path.join(d, "*")) if os.path.basename(f) not in ("patch.diff", "README.md") and os.path.isfile(f)]
@@ -66,7 +69,7 @@ def place():
     for f in demos:
         if not f.endswith(".go"): continue
         rel, pk, txt = demo_dir(f)
-        if pk == "main":
+        if pk == "main" and not re.search(r"^func Test\w+\(", txt, re.M):
             dst = os.path.join(WT, "zz_demo_main")
             os.makedirs(dst, exist_ok=True)
             shutil.copy(f, os.path.join(dst, "main.go"))
@@ -94,7 +97,7 @@ def run_demo():
 
 apply()
 # the patch as it applies to the current HEAD (it may have needed a 3-way merge)
-rebased = sh("git diff", WT)[1]
+rebased = sh("git diff --cached", WT)[1]
 rc, out = sh("go build ./...", WT)
 meta["builds"] = rc == 0
 if rc:
